@@ -73,8 +73,8 @@ func KindOf(v any) string {
 	return ""
 }
 
-// items returns the items of a collection as []any (associations as [2]any{key,value}).
-func items(v any) (out []any, assoc bool) {
+// Items returns the items of a collection as []any (associations as [2]any{key,value}).
+func Items(v any) (out []any, assoc bool) {
 	rv := reflect.ValueOf(v)
 	arr := rv.MethodByName("AsArray").Call(nil)[0]
 	for i := 0; i < arr.Len(); i++ {
@@ -142,8 +142,8 @@ func Same(orig, parsed any, path string) string {
 		}
 		return ""
 	}
-	io, ao := items(orig)
-	ip, ap := items(parsed)
+	io, ao := Items(orig)
+	ip, ap := Items(parsed)
 	if len(io) != len(ip) {
 		return fmt.Sprintf("%s(%s): %d items became %d", path, ko, len(io), len(ip))
 	}
